@@ -34,7 +34,7 @@ def call_msg(c):
 
 
 def run_one(sc, prefix=(), seed=0, keep=False):
-    nsc = {'dll': DLL, 'base_lat': 1e-3, 'wake_grid': sc.get('wake_grid'), 'send_cost': sc.get('send_cost', 0.0),
+    nsc = {'dll': DLL, 'base_lat': sc.get('base_lat', 1e-3), 'wake_grid': sc.get('wake_grid'), 'send_cost': sc.get('send_cost', 0.0),
            'stacks': [{'name': 'A', 'cas': [A_], 'win': 1}, {'name': 'B', 'cas': [B_], 'win': 1}, {'name': 'C', 'cas': [C_], 'win': 1}]}
     net = Net(nsc, prefix)
     try:
@@ -48,6 +48,10 @@ def run_one(sc, prefix=(), seed=0, keep=False):
             A.ecu.add_timer(0.004, lambda c: False)
         elif sc.get('pre') == 'timer_later':
             A.ecu.add_timer(0.9, lambda c: False)
+        if sc.get('transfer'):
+            # a connection-mode transfer of the same stack is in progress (its peer answers slowly: the bus latency of the
+            # scenario): its session deadlines (T3 1.25 s, T5 3 s) must not postpone the collection buffers
+            net.submit({'src': A_, 'kind': 'p2p', 'dst': B_, 'size': sc['transfer'], 'pat': 1, 'pf': 0xD5}, seed + 50)
         t = 0.0
         for i, c in enumerate(sc['calls']):
             t += c.get('off', 0.0)
@@ -57,7 +61,7 @@ def run_one(sc, prefix=(), seed=0, keep=False):
             else:
                 w.at(w.now + t, lambda m=m, i=i: net.submit(m, seed + i))
         tmax = max(c['tl'] for c in sc['calls'])
-        w.run_for(t + tmax + 0.05)
+        w.run_for(t + tmax + 0.05 + (3.5 if sc.get('transfer') else 0.0))
         probs = []
         # ---- decode every frame A emitted
         groups = []        # (t, format, dest, cpgn, payload)
@@ -70,6 +74,8 @@ def run_one(sc, prefix=(), seed=0, keep=False):
             if not R.fd_legal_len(len(f.data)):
                 probs.append("multi-PG frame with illegal CAN FD length %d" % len(f.data))
             if f.ext:
+                if f.pf in (0x4D, 0x4E) and sc.get('transfer'):
+                    continue                 # frames of the background transfer
                 if f.pf != 0x25:
                     probs.append("unexpected frame id %08X" % f.can_id)
                     continue
@@ -94,6 +100,8 @@ def run_one(sc, prefix=(), seed=0, keep=False):
         # ---- match submitted groups
         lam = max(sc.get('wake_grid') or [50e-6]) + 2e-4 + 2 * sc.get('send_cost', 0.0)
         for (m, r, _b0, _b1, data) in net.sent:
+            if m['size'] > 60:
+                continue                     # the connection-mode transfer in the background (judged by the delivery oracle)
             fb = m.get('ff', 3) == 2
             if fb and m['kind'] == 'p2p':
                 continue
@@ -119,7 +127,7 @@ def run_one(sc, prefix=(), seed=0, keep=False):
         extra = [g for g in groups if not g[5]]
         if extra:
             probs.append("%d parameter group(s) on the bus that were not submitted (or duplicated)" % len(extra))
-        probs += net.judge_deliveries(tolerate_ack=False)
+        probs += net.judge_deliveries(tolerate_ack=bool(sc.get('transfer')))
         probs += net.job_problems()
         probs += net.idle_problems()
         outcome = ([(f.can_id, f.data) for f in net.bus.log], len(net.rec.items))
@@ -208,6 +216,13 @@ def scenarios(tier):
                         if pre:
                             sc['pre'] = pre
                         out.append((sc, 1))
+    # (vi) a connection-mode transfer in progress whose peer answers after 2 x 90 ms (within the response time Tr = 200 ms)
+    for size in (100, 181):
+        for (l1, l2) in ((8, 8), (28, 29)):
+            for lm in ((0.05, 0.05), (0.2, 0.2), (0.2, 0.05), (0.01, 0.2)):
+                for off in (0.0, 0.02, 0.1):
+                    for tg in ('B', 'C'):
+                        out.append(({'calls': [call(l1, lm[0], tg), call(l2, lm[1], tg, off)], 'transfer': size, 'base_lat': 0.09}, 0))
     # (v) blocking driver: the second group is submitted while the job thread is inside the send call that puts the
     #     first group's frame on the bus (and just before / after it)
     for cost in (0.3e-3, 2e-3):
